@@ -500,6 +500,7 @@ class CallMixin:
             self.frames.pop()
 
     def call_symbolic(self, sc, args, kwargs, node, anchor):
+        self.st.mark_escaped(*args)
         return sc.spec(self, sc, args, kwargs, node, anchor)
 
     # ------------------------------------------------------------------ instantiation
